@@ -9,4 +9,5 @@ let components : (string * Generic.component) list = [
   ("lru", LruComp.lru_component);
   ("adapter", AdapterComp.adapter_component);
   ("immunity", ImmunityComp.immunity_component);
+  ("crash", CrashComp.crash_component);
 ]
